@@ -6,6 +6,7 @@ import (
 	"context"
 	"encoding/json"
 	"fmt"
+	"net"
 	"os"
 	"reflect"
 	"sort"
@@ -471,10 +472,15 @@ func c16DocsForSched() []config.ServerConfig {
 
 type c17Handler struct {
 	w *vsyncrt.World
+	// pending: every reply registers a continuation, so the session stays open (mid-exchange connection)
+	pending bool
 }
 
 func (h c17Handler) Handle(resp tq.Response, req tq.Request) {
 	h.w.Mark("handler-enter")
+	if h.pending {
+		resp.Next(h)
+	}
 	resp.Reply(tq.NewAuthorReply(tq.SetAuthorReplyStatus(tq.AuthorStatusPassAdd)))
 	h.w.Mark("handler-exit")
 }
@@ -509,13 +515,13 @@ func c17Scripts(n int) [][]string {
 	return out
 }
 
-func c17Body(script []string) func(x *sx) {
+func c17Body(script []string, pending, patient bool) func(x *sx) {
 	return func(x *sx) {
 		world := vsyncrt.NewWorld()
 		w := newSWorldL(c17Key, nil)
 		w.W = world
 		w.L = world.NewListener()
-		w.srv = tq.NewServer(w.lg, srvx.FixedSecret{Key: c17Key, H: c17Handler{world}})
+		w.srv = tq.NewServer(w.lg, srvx.FixedSecret{Key: c17Key, H: c17Handler{w: world, pending: pending}})
 		w.serve()
 		var conns []*vsyncrt.Conn
 		full := authorPkt(c17Key, "u", 7, "service=shell", "cmd=show")
@@ -544,6 +550,9 @@ func c17Body(script []string) func(x *sx) {
 				w.cancel()
 			case 'A':
 				w.L.FireDeadline()
+			}
+			if patient {
+				vsyncrt.Quiesce() // the server digests this event completely before the next one
 			}
 		}
 		// fair closing phase: cancel, then every armed deadline fires until Serve returns
@@ -609,7 +618,23 @@ func c17Jobs(quick bool) []sjob {
 	var jobs []sjob
 	for _, s := range c17Scripts(n) {
 		s := s
-		jobs = append(jobs, sjob{"script " + strings.Join(s, " "), c17Body(s)})
+		jobs = append(jobs, sjob{"script " + strings.Join(s, " "), c17Body(s, false, false)})
+		jobs = append(jobs, sjob{"script (each event digested before the next) " + strings.Join(s, " "), c17Body(s, false, true)})
+		// the same script against a handler that leaves every session waiting for a continuation, when the script
+		// lets a deadline fire after a full packet
+		hasF, dAfterF := false, false
+		for _, ev := range s {
+			if ev[0] == 'F' {
+				hasF = true
+			}
+			if ev[0] == 'D' && hasF {
+				dAfterF = true
+			}
+		}
+		if dAfterF {
+			jobs = append(jobs, sjob{"script (sessions left pending, each event digested) " + strings.Join(s, " "), c17Body(s, true, true)})
+			jobs = append(jobs, sjob{"script (sessions left pending) " + strings.Join(s, " "), c17Body(s, true, false)})
+		}
 	}
 	return jobs
 }
@@ -767,6 +792,51 @@ func c12SchedJobs() []sjob {
 	return []sjob{{"two connections send accounting records concurrently", body(false)}}
 }
 
+// ---------------- C13 (scope order under whatever concurrency the loader uses) ----------------
+
+func c13SchedJobs() []sjob {
+	mk := func(order []int) config.ServerConfig {
+		cs := c13Case{Deny: []string{"10.1.2.0/24"}}
+		for _, i := range order {
+			cs.Scopes = append(cs.Scopes, c13Scopes[i])
+		}
+		return c13Config(cs)
+	}
+	var jobs []sjob
+	for _, order := range [][]int{{0, 1, 2}, {1, 0, 3}, {4, 0, 1}, {3, 2, 0}} {
+		order := order
+		jobs = append(jobs, sjob{fmt.Sprintf("overlapping scopes in configuration order %v: lookups bind to the first matching one", order), func(x *sx) {
+			lg, sink := &srvx.Logger{}, &sinkRec{}
+			ctx, cancel := context.WithCancel(context.Background())
+			defer cancel()
+			feed := cfgFeed{ch: mkCfgChan(1)}
+			ld := newSLoader(ctx, lg, sink, nil, feed)
+			feed.ch.Send(mk(order))
+			ld.BlockUntilLoaded()
+			var scopes []ref.Scope
+			for _, i := range order {
+				sc := c13Scopes[i]
+				scopes = append(scopes, ref.Scope{Name: sc.Name, Key: sc.Key, Prefixes: sc.Prefixes, Effective: sc.Users})
+			}
+			for _, a := range []net.IP{net.IPv4(10, 1, 9, 9), net.IPv4(10, 2, 0, 1), net.IPv4(10, 1, 2, 5), net.ParseIP("2001:db8::1"), net.IPv4(192, 168, 0, 7).To4()} {
+				want := ref.Admit([]string{"10.1.2.0/24"}, nil, scopes, a, true)
+				secret, handler, err := ld.Get(context.Background(), &net.TCPAddr{IP: a, Port: 1313})
+				served := err == nil && secret != nil && handler != nil
+				switch {
+				case want < 0 && served:
+					x.fail("C13/served-but-must-refuse", fmt.Sprintf("address %v served with key %q", a, secret))
+				case want >= 0 && !served:
+					x.fail("C13/refused-but-must-serve", fmt.Sprintf("address %v refused: %v", a, err))
+				case want >= 0 && string(secret) != scopes[want].Key:
+					x.fail("C13/wrong-scope", fmt.Sprintf("address %v bound to key %q, the first matching scope in configuration order is %s", a, secret, scopes[want].Name))
+				}
+			}
+			x.obs = "ok"
+		}})
+	}
+	return jobs
+}
+
 // ---------------- explorer ----------------
 
 type schedReplay struct {
@@ -786,6 +856,8 @@ func jobsFor(id string, quick bool) []sjob {
 		return c09Jobs()
 	case "C12":
 		return c12SchedJobs()
+	case "C13":
+		return c13SchedJobs()
 	}
 	return nil
 }
